@@ -92,8 +92,13 @@ func (s stakeTx) Validate(ctx *action.Context, tx action.SignedTx) (bool, error)
 		return false, err
 	}
 
-	_, err = st.ValidatorPubKey.GetHandler()
+	pubKeyHandler, err := st.ValidatorPubKey.GetHandler()
 	if err != nil {
+		return false, action.ErrInvalidPubkey
+	}
+	// the consensus key must be the ed25519 key the validator address is derived from
+	// (tendermint admits ed25519 validators only and identifies them by that address)
+	if st.ValidatorPubKey.KeyType != keys.ED25519 || !pubKeyHandler.Address().Equal(st.ValidatorAddress) {
 		return false, action.ErrInvalidPubkey
 	}
 
